@@ -187,6 +187,8 @@ class Scheduler:
         self.step_hooks = []       # callables(sched) run at every point
         self.sleep_log = []        # (step, tid, duration)
         self.kbi_delivered = []    # (step, what) of harness-delivered Ctrl-C
+        self.cond_waiters = []     # names of threads that parked in a
+                                   # Condition.wait, in order
         self.unbilled = set()      # tids inside a signing / pre-flight read
         self.tick = 0.0            # virtual time added at every point
         self.busy = False          # inside the scheduler (see point())
@@ -543,6 +545,7 @@ class DCondition:
         s = self._s
         w = [False]
         self._waiters.append(w)
+        s.cond_waiters.append(s.cur.name)
         # release the lock fully (plain lock only needs one release)
         self._lock.release()
         try:
